@@ -121,3 +121,55 @@ def run_reference(design, seq):
 
 def diff(a, b):
   return sorted(k for k in a if a[k] != b.get(k))
+
+
+class OrderRecorder:
+  """records the order in which update blocks / net blocks are *called*, with sys.setprofile on their
+  code objects (sees through meta blocks, unrolled ticks and SCC wrappers).  Labels:
+  ("blk", inst_path, block_name) for user blocks, ("net", generated_name) for net blocks."""
+
+  def __init__(self, top, on_call=None):
+    self.top = top
+    self.on_call = on_call
+    self.by_code = {}            # id(code object): equal-looking code objects compare equal, identity does not
+    self._keep = list(top._dag.final_upblks)
+    self.net_labels = []
+    ub = top.get_all_update_blocks()
+    for f in top._dag.final_upblks:
+      if f in ub:
+        host = top.get_update_block_host_component(f)
+        ip = repr(host)[2:]                       # "s.c1.g2" -> "c1.g2", "s" -> ""
+        label = ("blk", ip, f.__name__)
+        self.by_code.setdefault(id(f.__code__), []).append((host, label))
+      else:
+        # two nets driven by equal constants get the same generated name: number them
+        k = sum(1 for n in self.net_labels if n[1] == f.__name__)
+        lab = ("net", f.__name__, k)
+        self.net_labels.append(lab)
+        self.by_code.setdefault(id(f.__code__), []).append((None, lab))
+    self.calls = []
+
+  def _prof(self, frame, event, arg):
+    if event != "call": return
+    ent = self.by_code.get(id(frame.f_code))
+    if ent is None: return
+    if len(ent) == 1:
+      label = ent[0][1]
+    else:
+      s = frame.f_locals.get("s")
+      label = None
+      for host, lab in ent:
+        if host is s: label = lab; break
+      if label is None: label = ("?", frame.f_code.co_name)
+    self.calls.append(label)
+    if self.on_call is not None:
+      self.on_call(label)
+
+  def record(self, fn):
+    self.calls = []
+    sys.setprofile(self._prof)
+    try:
+      fn()
+    finally:
+      sys.setprofile(None)
+    return list(self.calls)
